@@ -25,13 +25,13 @@ R0 == [called |-> FALSE, given |-> NoGiven, sid |-> 0, canceled |-> FALSE,
        res |-> 0, ok |-> FALSE, errclass |-> "", failedBeforeGoAwayQ |-> FALSE]
 
 M0(tr) == [cfg |-> tr.cfg, r |-> << >>, lastSid |-> 0,
-           srvIW |-> 65535, srvMFS |-> 16384, srvMCS |-> -1,
+           srvIW |-> 65535, srvIWSent |-> 65535, srvMFS |-> 16384, srvMCS |-> -1,
            limQ |-> <<>>,      \* limits of the SETTINGS frames not yet acknowledged: <<[mfs, mcs]>> (-1 = not carried)
            grantC |-> 65535, sentC |-> 0,
            cliIW |-> 65535, rGrantC |-> 65535, rSentC |-> 0,
            setSent |-> 0, ackRecv |-> 0, pushAdvertised |-> -1,
            goaway |-> FALSE, gaLast |-> 0, gaCode |-> 0, gaSettled |-> FALSE,
-           openBlockES |-> FALSE, openBlockSid |-> 0, peerGone |-> FALSE, userClosed |-> FALSE, connClosed |-> FALSE, connErr |-> FALSE, badSettings |-> FALSE, pushSent |-> FALSE,
+           openBlockES |-> FALSE, openBlockSid |-> 0, peerGone |-> FALSE, userClosed |-> FALSE, connClosed |-> FALSE, connErr |-> FALSE, badSettings |-> FALSE, pushSent |-> FALSE, gaStep |-> 0,
            bad |-> {}]
 
 Rq(mm, i) == IF i \in DOMAIN mm.r THEN mm.r[i] ELSE R0
@@ -57,6 +57,12 @@ SeenMinusDefaults(fs) == SelectSeq(fs, LAMBDA f : f[1] # B_contenttype /\ f[1] #
 \* (a response that carries END_STREAM on its HEADERS ends the stream when its header block ends)
 OpenStreams(mm) == {i \in DOMAIN mm.r : mm.r[i].sid # 0 /\ ~((mm.r[i].es >= 1 \/ mm.r[i].rstByClient) /\ ((mm.r[i].rES /\ ~mm.r[i].rblkOpen) \/ mm.r[i].rRst))
                                          /\ ~mm.r[i].rRst /\ ~mm.r[i].rstByClient}
+
+\* a change of the server's INITIAL_WINDOW_SIZE by d takes effect in the ledger of every request body still going out
+ApplySrvIW(mm, d) ==
+  [mm EXCEPT !.srvIW = @ + d,
+             !.r = [k \in DOMAIN mm.r |-> IF mm.r[k].sid # 0 /\ mm.r[k].es = 0 /\ ~(d > 0 /\ mm.r[k].grant > 0 /\ d > MaxWin - mm.r[k].grant)
+                                         THEN [mm.r[k] EXCEPT !.grant = @ + d] ELSE mm.r[k]]]
 
 -----------------------------------------------------------------------------
 OnCall(mm, e) ==
@@ -118,9 +124,10 @@ OnRecv(mm, e) ==
   ELSE IF f.ty = T_SETTINGS THEN
      IF f.ack THEN
         LET m1 == IF mm.limQ = <<>> THEN mm
-                  ELSE [mm EXCEPT !.limQ = Tail(@),
-                                  !.srvMFS = IF Head(mm.limQ).mfs >= 0 THEN Head(mm.limQ).mfs ELSE @,
-                                  !.srvMCS = IF Head(mm.limQ).mcs >= 0 THEN Head(mm.limQ).mcs ELSE @]
+                  ELSE LET m0 == [mm EXCEPT !.limQ = Tail(@),
+                                            !.srvMFS = IF Head(mm.limQ).mfs >= 0 THEN Head(mm.limQ).mfs ELSE @,
+                                            !.srvMCS = IF Head(mm.limQ).mcs >= 0 THEN Head(mm.limQ).mcs ELSE @]
+                       IN IF Head(mm.limQ).iwd < 0 THEN ApplySrvIW(m0, Head(mm.limQ).iwd) ELSE m0
         IN FlagIf([m1 EXCEPT !.ackRecv = @ + 1], mm.ackRecv + 1 > mm.setSent, "C18:ack-without-settings")
      ELSE [mm EXCEPT !.cliIW = IF f.iw >= 0 THEN f.iw ELSE @, !.pushAdvertised = f.code]
   ELSE IF f.ty = T_WU THEN
@@ -151,14 +158,13 @@ OnSend(mm, e) ==
                                \* the client sends after its ACK; a larger one may be used at once
                                !.srvMFS = IF f.mfs >= 0 /\ f.sbad = 0 /\ f.mfs > @ THEN f.mfs ELSE @,
                                !.srvMCS = IF f.mcs >= 0 /\ f.sbad = 0 /\ @ >= 0 /\ f.mcs > @ THEN f.mcs ELSE @,
-                               !.limQ = Append(@, [mfs |-> IF f.sbad = 0 THEN f.mfs ELSE -1, mcs |-> IF f.sbad = 0 THEN f.mcs ELSE -1]),
+                               \* ... and so does a DEcrease of INITIAL_WINDOW_SIZE (an increase is the server's commitment at once)
+                               !.limQ = Append(@, [mfs |-> IF f.sbad = 0 THEN f.mfs ELSE -1, mcs |-> IF f.sbad = 0 THEN f.mcs ELSE -1,
+                                                   iwd |-> IF f.sbad = 0 /\ f.iw >= 0 /\ f.iw < mm.srvIWSent THEN f.iw - mm.srvIWSent ELSE 0]),
+                               !.srvIWSent = IF f.iw >= 0 /\ f.sbad = 0 THEN f.iw ELSE @,
                                !.badSettings = @ \/ f.sbad # 0]
-          IN IF f.iw >= 0 /\ f.sbad = 0
-             THEN [m1 EXCEPT !.srvIW = f.iw,
-                             !.r = [k \in DOMAIN m1.r |-> IF m1.r[k].sid # 0 /\ m1.r[k].es = 0
-                                                             /\ ~(f.iw > mm.srvIW /\ m1.r[k].grant > 0 /\ f.iw - mm.srvIW > MaxWin - m1.r[k].grant)
-                                                          THEN [m1.r[k] EXCEPT !.grant = @ + (f.iw - mm.srvIW)] ELSE m1.r[k]]]
-             ELSE m1
+              d == f.iw - mm.srvIWSent
+          IN IF f.iw >= 0 /\ f.sbad = 0 /\ d > 0 THEN ApplySrvIW(m1, d) ELSE m1
   ELSE IF f.ty = T_WU THEN
      IF f.sid = 0 THEN [mm EXCEPT !.grantC = IF Overflows(mm.grantC - mm.sentC, f.inc) \/ f.inc = 0 THEN @ ELSE @ + f.inc]
      ELSE IF i # 0 THEN PutR(mm, i, [x EXCEPT !.grant = IF Overflows(x.grant - x.sent, f.inc) \/ f.inc = 0 THEN @ ELSE @ + f.inc])
@@ -242,6 +248,11 @@ Step(mm, e) ==
     \* a frame whose size is wrong for its type is a connection error for the client too: from then on the peer is at fault
     [] e.k = "send" -> [OnSend(mm, e) EXCEPT !.badSettings = @ \/ FixedLenBad(e.f) \/ (e.f.ty \in {T_DATA, T_HEADERS} /\ e.f.padbad)]
     [] e.k = "resolve" -> OnResolve(mm, e)
+    \* the read loop's GOAWAY handling raises the flag FIRST and sweeps the table SECOND (CliGoAwayHandshake.tla: R1, R2);
+    \* the write loop registers first and re-reads the flag second - one of the two then sees the other
+    [] e.k = "hs" -> IF e.ev = "ga.flag" THEN [FlagIf(mm, mm.gaStep # 0, "C11:goaway-handshake-out-of-order (flag raised after the sweep)") EXCEPT !.gaStep = 1]
+                     ELSE IF e.ev = "ga.swept" THEN [FlagIf(mm, mm.gaStep # 1, "C11:goaway-handshake-out-of-order (table swept before the flag was raised)") EXCEPT !.gaStep = 0]
+                     ELSE mm
     [] e.k = "cancel" -> IF e.ok THEN PutR(mm, e.req, [Rq(mm, e.req) EXCEPT !.canceled = TRUE]) ELSE mm
     [] e.k = "q" -> OnQ(mm, e)
     [] e.k = "peerclose" -> [mm EXCEPT !.peerGone = TRUE]
